@@ -428,6 +428,9 @@ class AsyncClient(base_client.BaseClient):
         self.logger.info('Received ack [%s]', namespace)
         callback = None
         try:
+            if id == 0:
+                # slot 0 holds the ack id generator, it is never a callback
+                raise KeyError(id)
             callback = self.callbacks[namespace][id]
         except KeyError:
             # if we get an unknown callback we just ignore it
